@@ -333,7 +333,7 @@ class C06(Check):
     rule = ("for each sampled (program, schedule) the fault-free run counts its API calls; the check then fails call k for every "
             "k with a sampled error class (all classes in thorough), plain and applied-then-error; non-trivial iff the failing call "
             "carried >=1 update")
-    base_profile = {"amo_p": 0.35, "max_ops": 10, "weights": {"parallel": 4, "map": 2}, "lines_p": 0.5}
+    base_profile = {"amo_p": 0.35, "max_ops": 10, "weights": {"parallel": 4, "map": 2}, "lines_p": 0.5, "cbdefer_p": 0.35}
     quick_cases = 250
 
     def tune(self, cfg, prof, rng):
